@@ -7,6 +7,8 @@ import Proofs.C16.Ecies
 import Proofs.C16.EllSwift
 import Proofs.C16.EllSwiftToy
 import Proofs.C16.Borromean
+import Proofs.C16.ToyExamples
+import Proofs.E2E.C16Raw
 /-!
 # C16 — property theorems only (see DESIGN.md §3 C16).
 
@@ -122,6 +124,31 @@ proofs used (a changed `_PK_SIZE`, `_SCALAR_SIZE`, `_NONCE_SIZE` or `_INF_BYTES`
 example : (EC.ops EC.secp256k1).p ≤ 256 ^ 32 ∧ (EC.ops EC.secp256k1).n ≤ 256 ^ 32 := by decide
 example : pkSize = 33 ∧ scalarSize = 32 ∧ nonceSize = 66 ∧ infBytes = List.replicate 33 0 := by decide
 
+/-! ### non-vacuity: T2, T3, T4 instantiated with NO hypothesis left, on a lawful group
+(`Proofs/C16/ToyExamples.lean`: ℤ/3 with `Lawful` proved in `Proofs/C12/Toy.lean`; two signers sharing ONE key, an
+x-only tweak that negates an odd-y aggregate then a plain tweak; every hypothesis evaluated by the kernel) -/
+
+example : partialSigVerify ToyEx.T ToyEx.Ht (sBytes 1)
+    (cbytes ToyEx.T (ToyEx.T.mul 1 ToyEx.T.gen) ++ cbytes ToyEx.T (ToyEx.T.mul 1 ToyEx.T.gen))
+    (individualPubKey ToyEx.T 1) (honestCtx ToyEx.T ToyEx.l0 ToyEx.an0 ToyEx.tw0 [7] none) = .ok true :=
+  musig2_partial_sig_verifies Btc.Taproot.Toy.lawful ToyEx.Ht ToyEx.hp.1 ToyEx.hp.2 _ 1 1 1 1
+    (by decide +kernel)
+
+example : ∃ r sg, partialSigAgg ToyEx.T ToyEx.Ht ([1, 1].map sBytes)
+      (honestCtx ToyEx.T ToyEx.l0 ToyEx.an0 ToyEx.tw0 [7] none) = .ok (r, sg) ∧
+    bip340Verify ToyEx.T ToyEx.Ht (ToyEx.T.x ToyEx.v0.Q) [7] r sg = true :=
+  musig2_aggregate_verifies Btc.Taproot.Toy.lawful ToyEx.Ht ToyEx.hp.1 ToyEx.hp.2 ToyEx.l0 ToyEx.hl0 ToyEx.tw0 [7]
+    ToyEx.an0 ToyEx.han0 ToyEx.v0 ToyEx.hv0 ToyEx.hR0 [1, 1] ToyEx.hs0
+
+example : ∃ pre sig,
+    partialSigAggAdaptor ToyEx.T ToyEx.Ht ([0, 0].map sBytes)
+      (honestCtx ToyEx.T ToyEx.l0 ToyEx.an0 ToyEx.tw0 [7] ToyEx.adaptor) = .ok pre ∧
+    adapt ToyEx.T ToyEx.Ht pre 1 (honestCtx ToyEx.T ToyEx.l0 ToyEx.an0 ToyEx.tw0 [7] ToyEx.adaptor) = .ok sig ∧
+    bip340Verify ToyEx.T ToyEx.Ht (ToyEx.T.x ToyEx.vA.Q) [7] sig.1 sig.2 = true ∧
+    extractAdaptor ToyEx.T ToyEx.Ht sig pre (honestCtx ToyEx.T ToyEx.l0 ToyEx.an0 ToyEx.tw0 [7] ToyEx.adaptor) = .ok 1 :=
+  musig2_adaptor_completes Btc.Taproot.Toy.lawful ToyEx.Ht ToyEx.hp.1 ToyEx.hp.2 ToyEx.l0 ToyEx.hl0 ToyEx.tw0 [7]
+    ToyEx.an0 1 (by decide) (by decide) ToyEx.han0 ToyEx.vA ToyEx.hvA ToyEx.hRA [0, 0] ToyEx.hsA
+
 /-! ## ECDH (SEC 1 §6.1, `dh.diffie_hellman`) -/
 
 /-- **T5.** Both sides of an ECDH exchange derive the same keying data — for ANY key-derivation
@@ -131,7 +158,8 @@ theorem ecdh_symmetric (L : Lawful o G) (kdf : Bytes → R Bytes) (a b : Int) :
     diffieHellman o kdf a (o.mul b o.gen) = diffieHellman o kdf b (o.mul a o.gen) :=
   dh_symmetric L kdf a b
 
-/-- T5 on an arbitrary base point (x-only ECDH / ElligatorSwift-style exchanges on a lifted point). -/
+/-- T5 on an arbitrary base point. (This is the group-level symmetry only: `ellswift.xdh`, `encode_var` and
+`decode_var` have NO model here — their agreement is the `ellswift.roundtrip` oracle's, on the real code.) -/
 theorem ecdh_symmetric_base (L : Lawful o G) (kdf : Bytes → R Bytes) (a b : Int) (P : α) :
     diffieHellman o kdf a (o.mul b P) = diffieHellman o kdf b (o.mul a P) :=
   dh_symmetric_base L kdf a b P
@@ -212,8 +240,9 @@ theorem sp_sender_scanner_agree (L : Lawful o G) (H : Bytes → Bytes → Bytes)
 /-- **T9 (BIP375 shares).** For ANY list of eligible input keys — two or three inputs locked to the
 SAME key included: their equal per-input shares all count — the sum of the per-input ECDH shares
 `aᵢ•B_scan` is `prv_key_sum•B_scan` (so `pub_key_sum` of the shares answers), and the secret the PSBT
-roles derive from it gives the sender's tweaks `t_k` for every `k`: per-input shares, a global share
-and `output_keys` derive the same outputs. -/
+roles derive from it gives the sender's tweaks `t_k` for every `k`. (The statement is the sum and the equality
+of tweaks; that the two routes then write the same output KEYS — `psbtOutputKeys` vs `outputKeys` — is tied by
+the `psbt.sp_output_keys` stream and the `psbt.sp_roles` oracle, not by a theorem.) -/
 theorem sp_psbt_shares_sum (L : Lawful o G) (H : Bytes → Bytes → Bytes) (keys : List (Int × Bool))
     (a : Int) (h : prvKeySum o keys = .ok a) (Bscan : α) (hB : L.abs Bscan ≠ 0)
     (hh : Int) (hh0 : 0 < hh) (hh1 : hh < o.n) :
@@ -250,6 +279,17 @@ theorem sp_scan_complete_unlabelled (H : Bytes → Bytes → Bytes) (secret Bspe
     (res : List (Bytes × Int)) (h : scanLoop o H secret Bspend [] fuel k rem = .ok res) :
     exp <+: res :=
   scanLoop_complete_unlabelled H secret Bspend exp k fuel hch hfuel rem hsub res h
+
+/-- **T9 (the sender's counter `k`).** `output_keys`' derivation for one group — `j` payments to the SAME
+address under the group's secret, `k` counting from `k₀` (`groupOutputs`) — answers exactly a chain
+`x(B_spend + t_k•G)`, `k = k₀ … k₀+j−1`: the counter advances once per repeated recipient. Composed with
+`sp_scan_complete_unlabelled` (same secret: T9 agreement): every one of the `j` outputs is found.
+(For several DIFFERENT labelled addresses of one scan key in a group, and for `positionsOf`/`groupOffset`'s
+re-ordering into address order, there is no theorem: `sp.output_keys` streams and `sp.sender_scanner` oracle.) -/
+theorem sp_sender_group_is_chain (H : Bytes → Bytes → Bytes) (secret Bspend : α) (j k : Nat) (xs : List Bytes)
+    (h : groupOutputs o H secret (List.replicate j Bspend) k = .ok xs) :
+    ∃ exp, exp.map Prod.fst = xs ∧ exp.length = j ∧ SpChain o H secret Bspend k exp :=
+  groupOutputs_chain H secret Bspend j k xs h
 
 /-- the chain hypothesis is satisfiable: the empty chain at any `k` -/
 example (H : Bytes → Bytes → Bytes) (secret Bspend : α) : SpChain o H secret Bspend 0 [] := .nil 0
@@ -310,11 +350,12 @@ theorem ecies_wrong_key_different_kdf_input (L : Lawful o G) (hp : o.p ≤ 256 ^
     cbytes o (o.mul d' E) ≠ cbytes o (o.mul q P) :=
   ecies_wrong_key_kdf_input L hp d d' q hq hdd P E hP hE h1 h2
 
-/-- a cipher satisfying the round-trip hypothesis exists (the identity "cipher"), and the generated
-BIE1 sizes are the ones the proofs used -/
-example : ∀ k iv m c, (fun (_ _ : Bytes) (m : Bytes) => (Except.ok m : R Bytes)) k iv m = .ok c →
-    (fun (_ _ : Bytes) (m : Bytes) => (Except.ok m : R Bytes)) k iv c = .ok m := by
-  intro k iv m c h; cases h; rfl
+/-- the hypotheses of T7 are jointly satisfiable: a cipher that pads (one byte appended; `encrypt` refuses a
+cipher that does not lengthen the message) with `D(E(m)) = m`, and the generated BIE1 sizes are the ones the
+proofs used -/
+example : ∀ k iv m c, (fun (_ _ : Bytes) (m : Bytes) => (Except.ok (m ++ [0]) : R Bytes)) k iv m = .ok c →
+    (fun (_ _ : Bytes) (c : Bytes) => (Except.ok c.dropLast : R Bytes)) k iv c = .ok m := by
+  intro k iv m c h; cases h; simp
 example : eMagicSize = 4 ∧ eEphSize = 33 ∧ eMacSize = 32 ∧ eBlockSize = 16
     ∧ Gen.Interactive.ECIES_MAGIC = [66, 73, 69, 49] := by decide
 
@@ -437,12 +478,14 @@ example : inputHash (EC.ops toyC) toyH [1] (32, 40) = .ok 21 ∧
 
 /-! ## ElligatorSwift (BIP324, `ecc/ellswift.py`) -/
 
-/-- **T6 (field identities).** In any field with `c² = −3` (characteristic ≠ 2, `c ≠ 0`): if `(v, w)` satisfy
+/-- **T6 (field identities — algebra only: the relation `hs` and the shape of `t` are HYPOTHESES here; that the
+integer model establishes them is checked exhaustively on two small curves below and by correspondence).**
+In any field with `c² = −3` (characteristic ≠ 2, `c ≠ 0`): if `(v, w)` satisfy
 the relation both branches of `_xswiftec_inv_var` establish, `w²·(u² + uv + v²) = −(u³ + b)`, and
 `t = w·(u(1 − c)/2 + v)` is what the inverse answers (cases with `1 − √−3`; the sign of `w` is free), then
 the forward map's `X = (u³+b−t²)/(2t)`, `Y = (X+t)/(c·u)` give `Y = −w/2`, first candidate
 `u + 4Y² = u + w²` and third candidate `(X/Y − u)/2 = v`. -/
-theorem ellswift_candidates_minus {F : Type} [Field F] (u v w c b t X Y : F) (hc : c ^ 2 = -3)
+theorem ellswift_candidates_minus_algebra_partial {F : Type} [Field F] (u v w c b t X Y : F) (hc : c ^ 2 = -3)
     (h2 : (2 : F) ≠ 0) (hc0 : c ≠ 0) (hu : u ≠ 0)
     (hs : w ^ 2 * (u ^ 2 + u * v + v ^ 2) = -(u ^ 3 + b))
     (ht : 2 * t = w * (u * (1 - c) + 2 * v)) (ht0 : t ≠ 0)
@@ -451,7 +494,7 @@ theorem ellswift_candidates_minus {F : Type} [Field F] (u v w c b t X Y : F) (hc
   Swift.candidates_minus u v w c b t X Y hc h2 hc0 hu hs ht ht0 hX hY
 
 /-- T6, the cases with `1 + √−3`: `Y = w/2`, first candidate `u + w²`, second candidate `(−X/Y − u)/2 = v`. -/
-theorem ellswift_candidates_plus {F : Type} [Field F] (u v w c b t X Y : F) (hc : c ^ 2 = -3)
+theorem ellswift_candidates_plus_algebra_partial {F : Type} [Field F] (u v w c b t X Y : F) (hc : c ^ 2 = -3)
     (h2 : (2 : F) ≠ 0) (hc0 : c ≠ 0) (hu : u ≠ 0)
     (hs : w ^ 2 * (u ^ 2 + u * v + v ^ 2) = -(u ^ 3 + b))
     (ht : 2 * t = w * (u * (1 + c) + 2 * v)) (ht0 : t ≠ 0)
@@ -461,24 +504,28 @@ theorem ellswift_candidates_plus {F : Type} [Field F] (u v w c b t X Y : F) (hc 
 
 /-- T6: the second branch of the inverse (`s = x − u`, `r² = −s(4(u³+b) + 3su²)`, `2v = −u + r/s`) lands
 on the same relation, so with `w² = s` the first candidate `u + w²` is `x`. -/
-theorem ellswift_branch2_relation {F : Type} [Field F] (u v s r b : F) (h2 : (2 : F) ≠ 0) (hs0 : s ≠ 0)
+theorem ellswift_branch2_relation_algebra_partial {F : Type} [Field F] (u v s r b : F) (h2 : (2 : F) ≠ 0) (hs0 : s ≠ 0)
     (hr : r ^ 2 = -s * (4 * (u ^ 3 + b) + 3 * s * u * u)) (hv : 2 * v = -u + r / s) :
     s * (u ^ 2 + u * v + v ^ 2) = -(u ^ 3 + b) :=
   Swift.branch2_relation u v s r b h2 hs0 hr hv
 
 /-- **T6 (the executable model, exhaustively on small curves).** On `y² = x³ + 2` over `F₁₉` and on
-`y² = x³ + 7` over `F₄₃` (`p ≡ 3 mod 4`, no point of order 2): for EVERY x-coordinate `x`, every `u ≠ 0`
+`y² = x³ + 7` over `F₄₃` (`p ≡ 3 mod 4`, no point of order 2) — and on a third curve WITH one, see below: for EVERY x-coordinate `x`, every `u ≠ 0`
 and every case `c ∈ 0..7`, whenever `xswiftec_inv x u c` is defined, `xswiftec (u, ·)` of it is `x` —
 candidate selection included (300 defined triples on the first curve).
 PARTIAL with respect to "for all p ≡ 3 mod 4": the bridge from the integer model modulo `p` to the field
 identities above (and the guards that make `x` the FIRST valid candidate) is proved only by this
 exhaustive evaluation; for secp256k1 it rests on the `ell.*` correspondence streams and the
-`ellswift.roundtrip` oracle. (On curves where `−b` is a cube — a point of order 2 exists — the identity
-FAILS for `u³ + b = 0`; btclib's map is only offered where no such `u` exists.) -/
+`ellswift.roundtrip` oracle. The third curve, `y² = x³ + 8` over `F₁₉`, HAS a point of order 2 (`−b` is a cube) and
+btclib's `_constants` accepts such a caller-defined curve: there the inverse used to answer `t = 0`, which the forward
+map reads as 1 (90 of 408 preimages did not map back — found by this check, oracle
+`ellswift.small_curve_roundtrip`); repaired in /repo c67c7290 (`return t or None`), mirrored in the model
+(`tOrNone`), and the round trip now holds on it as well (318 defined triples). -/
 theorem ellswift_roundtrip_small_curves_partial :
     Swift.allOk (Swift.toy 19 2) 19 = true ∧ Swift.allOk (Swift.toy 43 7) 43 = true
-      ∧ Swift.defined (Swift.toy 19 2) 19 = 300 :=
-  ⟨Swift.roundtrip_p19_b2, Swift.roundtrip_p43_b7, Swift.defined_p19_b2⟩
+      ∧ Swift.defined (Swift.toy 19 2) 19 = 300
+      ∧ Swift.allOk (Swift.toy 19 8) 19 = true ∧ Swift.defined (Swift.toy 19 8) 19 = 318 :=
+  ⟨Swift.roundtrip_p19_b2, Swift.roundtrip_p43_b7, Swift.defined_p19_b2, Swift.roundtrip_p19_b8, Swift.defined_p19_b8⟩
 
 /-- the field hypotheses are satisfiable: `ZMod`-free witness in ℚ(√−3) is not needed — in `ZMod 7`,
 `c = 2` has `c² = 4 = −3` -/
@@ -496,5 +543,43 @@ theorem borromean_closing_step_partial {α G : Type} [AddCommGroup G] {o : Group
     L.abs (o.dmul (-e) (o.mul q o.gen) ((k + q * e) % o.n) o.gen) = L.abs (o.mul k o.gen) ∧
     cbytes o (o.dmul (-e) (o.mul q o.gen) ((k + q * e) % o.n) o.gen) = cbytes o (o.mul k o.gen) :=
   borromean_closing_step L q k e hk
+
+/-! ## MuSig2 end to end over the RAW arithmetic the driver executes (`Btc.EC.ops secp256k1`)
+
+`Proofs/E2E/C16Raw.lean`: every MuSig2 model function commutes with an `OpsHom` (C01's `opsSub_hom`: the lawful
+carrier `opsSub` and `Btc.EC.ops C` run alike under cofactor one), so T2 / T3 hold for `sign`, `partial_sig_verify_`,
+`nonce_agg`, `session_values`, `partial_sig_agg` and BIP340 verification computed by `Btc.EC.ops secp256k1` ITSELF.
+The ONE hypothesis left is `hcof` — cofactor one, `∀ g, n • g = 0` on Mathlib's point group of secp256k1 (it needs
+the point count `#E(F_p) = n`, not proved here); primality of `p` and `n` (Pratt certificates), `CurveOk`,
+`p ≡ 3 mod 4` and `Δ ≠ 0` are PROVED. What remains un-transferred: T4 (adaptor) and T1 are stated over a lawful
+instance only (their raw forms follow the same way and are not written out). -/
+
+theorem musig2_partial_sig_verifies_secp256k1_raw
+    (hcof : ∀ g : @Btc.C01.Pt Btc.E2E.secp256k1_p ⟨Btc.E2E.secp256k1_p_prime⟩ EC.secp256k1.toCurveGroup,
+      EC.secp256k1.n • g = 0)
+    (H : Bytes → Bytes → Bytes) (s : SessionCtx) (d k1 k2 σ : ℤ)
+    (hs : sign (EC.ops EC.secp256k1) H k1 k2 (individualPubKey (EC.ops EC.secp256k1) d) d s = .ok σ) :
+    partialSigVerify (EC.ops EC.secp256k1) H (sBytes σ)
+      (cbytes (EC.ops EC.secp256k1) ((EC.ops EC.secp256k1).mul k1 (EC.ops EC.secp256k1).gen) ++
+        cbytes (EC.ops EC.secp256k1) ((EC.ops EC.secp256k1).mul k2 (EC.ops EC.secp256k1).gen))
+      (individualPubKey (EC.ops EC.secp256k1) d) s = .ok true :=
+  Btc.C16.Raw.musig2_partial_sig_verifies_secp256k1_raw hcof H s d k1 k2 σ hs
+
+theorem musig2_aggregate_verifies_secp256k1_raw
+    (hcof : ∀ g : @Btc.C01.Pt Btc.E2E.secp256k1_p ⟨Btc.E2E.secp256k1_p_prime⟩ EC.secp256k1.toCurveGroup,
+      EC.secp256k1.n • g = 0)
+    (H : Bytes → Bytes → Bytes) (l : List Signer) (hl : ∀ t ∈ l, t.ok (EC.ops EC.secp256k1))
+    (tweaks : List (Bytes × Bool)) (msg an : Bytes)
+    (han : nonceAgg (EC.ops EC.secp256k1) (l.map (Signer.pubNonce (EC.ops EC.secp256k1))) = .ok an)
+    (v : SessionValues EC.Point)
+    (hv : sessionValues (EC.ops EC.secp256k1) H (honestCtx (EC.ops EC.secp256k1) l an tweaks msg none) = .ok v)
+    (hR : ((l.map Signer.k1).sum + v.b * (l.map Signer.k2).sum) % EC.secp256k1.n ≠ 0)
+    (sigs : List ℤ)
+    (hs : List.Forall₂ (fun t σ => sign (EC.ops EC.secp256k1) H t.k1 t.k2 (t.pk (EC.ops EC.secp256k1)) t.d
+      (honestCtx (EC.ops EC.secp256k1) l an tweaks msg none) = .ok σ) l sigs) :
+    ∃ r sg, partialSigAgg (EC.ops EC.secp256k1) H (sigs.map sBytes)
+        (honestCtx (EC.ops EC.secp256k1) l an tweaks msg none) = .ok (r, sg) ∧
+      bip340Verify (EC.ops EC.secp256k1) H ((EC.ops EC.secp256k1).x v.Q) msg r sg = true :=
+  Btc.C16.Raw.musig2_aggregate_verifies_secp256k1_raw hcof H l hl tweaks msg an han v hv hR sigs hs
 
 end Props.C16
